@@ -72,22 +72,22 @@ Qed.
 
 (* ---------------------------------------------------------------- direction *)
 (* frames only the sending half emits, on a stream we alone may send on *)
-Lemma p_c12_direction_local_uni s sid :
-  sid_role sid = d_role s -> sid_dir sid = Uni -> ds_check_sid s sid true = inr EStreamState.
+Lemma p_c12_direction_local_uni v s sid :
+  sid_role sid = d_role s -> sid_dir sid = Uni -> ds_check_sid v s sid true = inr EStreamState.
 Proof.
   intros Hr Hd. unfold ds_check_sid. rewrite Hr, Hd.
   destruct (d_role s); reflexivity.
 Qed.
 (* frames only the receiving half emits, on a stream the peer alone may send on *)
-Lemma p_c12_direction_remote_uni s sid :
-  sid_role sid <> d_role s -> sid_dir sid = Uni -> ds_check_sid s sid false = inr EStreamState.
+Lemma p_c12_direction_remote_uni v s sid :
+  sid_role sid <> d_role s -> sid_dir sid = Uni -> ds_check_sid v s sid false = inr EStreamState.
 Proof.
   intros Hr Hd. unfold ds_check_sid. rewrite Hd.
   destruct (sid_role sid), (d_role s); try reflexivity; exfalso; apply Hr; reflexivity.
 Qed.
 (* and StreamState is produced in no other situation *)
-Lemma p_c12_direction_only s sid side :
-  ds_check_sid s sid side = inr EStreamState ->
+Lemma p_c12_direction_only v s sid side :
+  ds_check_sid v s sid side = inr EStreamState ->
   sid_dir sid = Uni /\ (if side then sid_role sid = d_role s else sid_role sid <> d_role s).
 Proof.
   unfold ds_check_sid, ds_try_accept.
@@ -96,10 +96,10 @@ Proof.
     destruct (sid_role sid), (d_role s); cbn in R; congruence.
   - assert (sid_role sid <> d_role s) by (destruct (sid_role sid), (d_role s); cbn in R; congruence).
     destruct side.
-    + destruct (try_accept_sid false (d_r s) (sid_dir sid) (sid_idx sid)) as [[r' res] up].
+    + destruct (try_accept_sid false (fix27 v) (d_r s) (sid_dir sid) (sid_idx sid)) as [[r' res] up].
       destruct res; discriminate.
     + destruct (sid_dir sid); [|auto].
-      destruct (try_accept_sid false (d_r s) Bi (sid_idx sid)) as [[r' res] up].
+      destruct (try_accept_sid false (fix27 v) (d_r s) Bi (sid_idx sid)) as [[r' res] up].
       destruct res; discriminate.
 Qed.
 
@@ -118,9 +118,9 @@ Lemma p_c12_direction_step v s sid :
 Proof.
   intros Hc Hd. split; intros Hr; intros.
   - unfold ds_step. rewrite Hc. unfold ds_recv_stream, ds_recv_reset, ds_recv_sdblocked.
-    rewrite (p_c12_direction_local_uni s sid Hr Hd). repeat split; reflexivity.
+    rewrite (p_c12_direction_local_uni v s sid Hr Hd). repeat split; reflexivity.
   - unfold ds_step. rewrite Hc. unfold ds_recv_stop, ds_recv_maxsd.
-    rewrite (p_c12_direction_remote_uni s sid Hr Hd). repeat split; reflexivity.
+    rewrite (p_c12_direction_remote_uni v s sid Hr Hd). repeat split; reflexivity.
 Qed.
 
 (* ---------------------------------------------------------------- final size *)
